@@ -1,7 +1,7 @@
 (* C18 -- cached bytecode never makes a module run with the wrong instrumentation.
    Model: model/HookCache.v; gen/HookConsts.v says which loader method holds the patch of
    cache_from_source and what the optimisation tag looks like (regenerated from the source). *)
-From JT Require Import model.HookCache gen.HookConsts proofs.HookCacheFacts.
+From JT Require Import model.HookCache model.HookRegistry gen.HookConsts proofs.HookCacheFacts proofs.HookRegistryFacts.
 Open Scope string_scope.
 
 (* the patch is confined to the hooked module's own cache access (fix commit in /repo; before it: "exec_module") *)
@@ -39,3 +39,31 @@ Theorem C18_exec_module_scope_refuted :
     = "a=hooked:h@1,b=hooked:h@1".
 Proof. exact exec_module_scope_refuted. Qed.
 Print Assumptions C18_exec_module_scope_refuted.
+
+(* one interpreter that goes on after its hooks are uninstalled (modules imported again, sources possibly edited): in the source's
+   design every phase is one more run, so every phase of every process executes what its own configuration and the current source call for *)
+Theorem C18_continuations_in_one_interpreter : forall ps, Forall2 (fun r d => all_correct r d) ps (fst (process_getcode ps [])).
+Proof. exact process_getcode_correct. Qed.
+Print Assumptions C18_continuations_in_one_interpreter.
+
+(* without a hook, whatever the cache holds: plain code from the current source *)
+Theorem C18_unhooked_phase_runs_plain : forall r c, cinv c -> r_hooked r = [] ->
+  forall m k v, In (m, (k, v)) (rs_done (run_once false r c)) -> k = Uninstr /\ v = src_of r m.
+Proof. exact unhooked_phase_runs_plain. Qed.
+Print Assumptions C18_unhooked_phase_runs_plain.
+
+(* the alternative "tag by source file, registered by the loader, never unregistered" (model/HookRegistry.v) is indistinguishable
+   from the source's design on every process of one phase ... *)
+Theorem C18_per_file_tagging_agrees_on_one_phase : forall r c, g_rs (phase_reg r c []) = run_once false r c.
+Proof. exact one_phase_agrees. Qed.
+Print Assumptions C18_per_file_tagging_agrees_on_one_phase.
+
+(* ... and violates the property on a continuation *)
+Theorem C18_per_file_tagging_refuted :
+  map show_done (fst (process_reg [reg_hooked; reg_plain1] [] [])) = ["a=hooked:h@1"; "a=hooked:h@1"] /\
+  map show_done (fst (process_reg [reg_hooked2] (snd (process_reg [reg_hooked; reg_plain2] [] [])) [])) = ["a=plain@2"] /\
+  (exists ps, ~ Forall2 (fun r d => all_correct r d) ps (fst (process_reg ps [] []))) /\
+  map show_done (fst (process_getcode [reg_hooked; reg_plain1] [])) = ["a=hooked:h@1"; "a=plain@1"] /\
+  map show_done (fst (process_getcode [reg_hooked2] (snd (process_getcode [reg_hooked; reg_plain2] [])))) = ["a=hooked:h@2"].
+Proof. exact per_file_registry_refuted. Qed.
+Print Assumptions C18_per_file_tagging_refuted.
